@@ -8,7 +8,7 @@ class C14(pure.Spec):
     theorems = ["C14_upgrade_iff", "C14_ws_fallback", "C14_obfs_hides", "C14_other_paths_fallback"]
     crate = "app"
     binary = "vh-app"
-    design_ref = "DESIGN.md §4 C14"
+    design_ref = "DESIGN.md §5 C14"
     rule = ("State called in-process as a hyper Service with crafted requests (with and without the OnUpgrade extension): "
             "exhaustively, one deviation at a time from a valid upgrade request: method {GET,POST,HEAD,get,PUT} x path {/ws,/ws/,/x,"
             "/health,/version,/WS,/ws?x=1,/} x each of the six headers in 9 variants (exact, absent, upper-case value, near-miss, "
@@ -17,7 +17,8 @@ class C14(pure.Spec):
             "longer}; compared: response class, the four upgrade headers incl. the RFC 6455 accept hash (recomputed in the "
             "harness), body, and byte equality with the response of the same request on an unknown path. Cells = (config, "
             "method, path, outcome); distinct by case hash.")
-    assumptions = ["no backend configured (the fallback is the configured 404); hyper's HeaderMap::get = first value"]
+    assumptions = ["every case runs twice: without a backend (fallback = the configured 404) and with a backend answering every path alike "
+                   "(fallback = the proxied answer; the Date header is ignored); hyper's HeaderMap::get = first value"]
 
     def build(self, tier):
         C.cargo_build(os.path.join(C.VERIF, "harness", "app"), "release")
@@ -41,6 +42,9 @@ class C14(pure.Spec):
 
     def classify(self, case, impl, model):
         i, m = impl.split(), model.split()
+        if i[:1] == ["7"]:
+            return True, "fallback-distinguishable-with-backend", ("with a backend configured the request is answered differently from the same request "
+                                                                   "on an unknown path, or its class changes (class without backend %s, with %s, same-as-unknown %s)" % tuple(i[1:4]))
         if i[:1] == ["2"] and m[:1] != ["2"]:
             return True, "upgrade-without-valid-request", "101 Switching Protocols for a request that is not a valid, authenticated upgrade"
         if m[:1] == ["2"] and i[:1] != ["2"]:
